@@ -124,11 +124,17 @@ func runC14(c *core.Case) {
 	}
 	// radius from a discrete palette u*wEq*2^-k with the smallest k that respects the limit (+ random extra halvings)
 	u := []float64{0.1, 0.2, 0.4, 0.8, 1.6}[r.Intn(5)]
+	wide := h >= 6 && r.P(0.12)
+	if wide { // wide corridors: 3 to 6.5 voxel widths (5 to 7 layers), where "inner layers need no measurement" shortcuts would start
+		limit = 6.5
+		u = []float64{3.1, 4.1, 4.2, 5.3, 6.2, 4.05}[r.Intn(6)]
+		c.Tag("radius-3-to-6.5-widths")
+	}
 	rad := u * wEq
 	for rad > limit*wMin {
 		rad /= 2
 	}
-	for k := r.Intn(3); k > 0; k-- {
+	for k := r.Intn(3); k > 0 && !wide; k-- {
 		rad /= 2
 	}
 	if r.P(0.12) {
@@ -156,14 +162,37 @@ func runC14(c *core.Case) {
 				}
 				if found {
 					lo := rad
+					// every evaluation is preceded by a fit of another voxel with another clearance, so that each one is
+					// answered on its own (a "same request as last time" shortcut cannot steer the bisection)
+					other := operated.GetShiftingSpatialID(sv[0], 3, 1, 0)
+					flush := func() { transform.FitClearanceAroundExtendedSpatialID(other, rad*0.37) }
 					for k := 0; k < 60 && (hi-lo) > 1e-13*hi; k++ {
 						mid := lo + (hi-lo)/2
+						flush()
 						if n1, _, e1 := transform.FitClearanceAroundExtendedSpatialID(sv[0], mid); e1 == nil && n1 > n0 {
 							hi = mid
 						} else {
 							lo = mid
 						}
-						c.Call()
+						c.Calls(2)
+					}
+					// lo and hi are now a few ulps apart and on opposite sides of a layer threshold: asked one right
+					// after the other (both orders), each must get the answer it gets on its own
+					flush()
+					xl, xv, _ := transform.FitClearanceAroundExtendedSpatialID(sv[0], lo)
+					flush()
+					yl, yv, _ := transform.FitClearanceAroundExtendedSpatialID(sv[0], hi)
+					zl, zv, _ := transform.FitClearanceAroundExtendedSpatialID(sv[0], lo)
+					wl, wv, _ := transform.FitClearanceAroundExtendedSpatialID(sv[0], hi)
+					c.Calls(6)
+					if zl != xl || zv != xv || wl != yl || wv != yv {
+						c.Fail("fit-history-dependent", nil, "FitClearanceAroundExtendedSpatialID(%s, c): c=%.17g gives (%d,%d) on its own and (%d,%d) right after c=%.17g; c=%.17g gives (%d,%d) on its own and (%d,%d) right after c=%.17g",
+							sv[0], lo, xl, xv, zl, zv, hi, hi, yl, yv, wl, wv, lo)
+						return
+					}
+					if xl > yl {
+						c.Fail("fit-not-monotone", nil, "FitClearanceAroundExtendedSpatialID(%s, c): %d layers for c=%.17g but %d for the larger c=%.17g", sv[0], xl, lo, yl, hi)
+						return
 					}
 					rad = lo
 					c.Tag("threshold-radius")
